@@ -228,6 +228,10 @@ row("namespace_fn", {"decl": "namespace {n}_ns", "declarations": [
         {"decl": "int {n}_inner(int a)"},
         {"decl": "namespace {n}_deep", "declarations": [{"decl": "void {n}_deepfn(double *x +intent(out))"}]},
     ]}, langs=CXX, wraps=CFP, doc="docs/namespaces.rst; namespace.yaml")
+row("namespace_scalar", {"decl": "namespace {n}_ns", "declarations": [
+        {"decl": "int {n}nsin(int a)"},
+        {"decl": "namespace {n}_deep", "declarations": [{"decl": "int {n}nsdeep(int a, int b)"}]},
+    ]}, langs=CXX, wraps=ALLW, doc="docs/namespaces.rst; namespace.yaml (scalar functions: every wrapper language)")
 row("class_inherit", [{"decl": "class {n}_Shape", "declarations": [
         {"decl": "{n}_Shape()"}, {"decl": "int get_ivar() const"}]},
     {"decl": "class {n}_Circle : public {n}_Shape", "declarations": [{"decl": "{n}_Circle()"}]}],
